@@ -158,6 +158,7 @@ PPaths gen_paths(Rng& r, int64_t mag, int maxpaths, int maxpts, bool z, const Fr
 
 // now and then the floating-point input is far outside what the integer engine can hold after scaling: the library
 // must reject it (range error) whatever the precision, never let it through
+static Plan gen_c12_base(uint64_t seed, uint64_t run, const std::string& cfg);
 static bool g_allow_blow_up = false;   // only in C10 cases generated for the builds without the strict signed-overflow check
 static bool g_allow_dup_container = false;   // only in C10 cases: the same container added twice to one clipper (known finding C10-F9)
 static void maybe_blow_up(PPathsD& pp, Rng& r) {
@@ -490,7 +491,7 @@ Plan gen_c10(uint64_t seed, uint64_t run, const std::string& cfg) {
     else if (big < 6) maxpts = 400;
     if (maxpts > 100) maxpaths = 2; }
   if (g.chance(0.08)) {                                          // phase C: faults inside object histories
-    Plan h = gen_c12(seed, run * 8 + 2 + g.below(6), cfg);
+    Plan h = gen_c12_base(seed, run * 8 + 2 + g.below(6), cfg);
     h.prop = "C10"; h.check_model = 0; h.run = run; h.env = pl.env;
     if (h.ops.size() > 14) h.ops.resize(14);
     return h;
@@ -573,7 +574,7 @@ static void gen_offset_alone_history(Rng& g, Plan& pl, bool z) {
 // operation alphabets per object class (used for skeleton stratification)
 enum { A_ADD_S, A_ADD_O, A_ADD_C, A_REUSE, A_PC, A_RS, A_EXEC_P, A_EXEC_T, A_CLEAR, A_SETZ, A_N };
 
-Plan gen_c12(uint64_t seed, uint64_t run, const std::string& cfg) {
+static Plan gen_c12_base(uint64_t seed, uint64_t run, const std::string& cfg) {
   Plan pl; pl.prop = "C12"; pl.cfg = cfg; pl.seed = seed; pl.run = run; pl.check_model = 1;
   uint64_t base = mix64(mix64(seed, tag64("C12")), run);
   Rng g(mix64(base, tag64("gen"))); Rng e(mix64(base, tag64("env")));
@@ -598,6 +599,33 @@ Plan gen_c12(uint64_t seed, uint64_t run, const std::string& cfg) {
     // clipper histories: one or two Clipper64 (or a ClipperD), up to two containers
     bool useD = mode == 4 && g.chance(0.6);
     int prec = (int)g.range(-2, 4);
+    if (!useD && g.chance(0.07)) {
+      // container life cycle: fill, use, Clear(), refill with a rearranged copy of the same paths (same number of local
+      // minima, another insertion order and other positions), use again - by the same or by another clipper that holds
+      // nothing but the container
+      PPaths p1 = P(); if (p1.size() < 2) { PPaths more = P(); p1.insert(p1.end(), more.begin(), more.end()); }
+      PPaths p2 = p1;
+      int how = (int)g.below(4);
+      if (how == 0 || how == 3) std::reverse(p2.begin(), p2.end());
+      if (how == 1 || how == 3) for (size_t i = 0; i < p2.size(); ++i) { int64_t dy = (int64_t)(p2.size() - i) * g.range(1, 40), dx = g.range(-20, 20); for (PPt& q : p2[i]) { q.x += dx; q.y += dy; } }
+      if (how == 2) { for (PPath& q : p2) for (PPt& c : q) c.y = -c.y; std::reverse(p2.begin(), p2.end()); }
+      Op nk = mkop("new_cont"); nk.o = 4; pl.ops.push_back(nk);
+      Op a1 = mkop("k_add"); a1.o = 4; a1.i = {0, 0}; setP(a1, 0, p1); pl.ops.push_back(a1);
+      Op n0 = mkop("new_c64"); n0.o = 0; pl.ops.push_back(n0);
+      if (g.chance(0.3)) { Op o = mkop("c_add"); o.o = 0; o.i = {(int64_t)g.below(3)}; setP(o, 0, P()); pl.ops.push_back(o); }
+      Op r0 = mkop("c_reuse"); r0.o = 0; r0.o2 = 4; pl.ops.push_back(r0);
+      int ne = (int)g.range(0, 2);
+      for (int i = 0; i < ne; ++i) { Op o = mkop("c_exec"); o.o = 0; o.i = {(int64_t)g.range(1, 4), (int64_t)g.below(4), (int64_t)g.below(4), (int64_t)g.below(2)}; pl.ops.push_back(o); }
+      Op c0 = mkop("clear"); c0.o = 0; pl.ops.push_back(c0);
+      Op ck = mkop("clear"); ck.o = 4; pl.ops.push_back(ck);
+      Op a2 = mkop("k_add"); a2.o = 4; a2.i = {0, 0}; setP(a2, 0, p2); pl.ops.push_back(a2);
+      int user = 0;
+      if (g.chance(0.5)) { Op n1 = mkop("new_c64"); n1.o = 1; pl.ops.push_back(n1); user = 1; }
+      if (g.chance(0.2)) { Op o = mkop("c_add"); o.o = user; o.i = {(int64_t)(1 + g.below(2))}; setP(o, 0, P()); pl.ops.push_back(o); }
+      Op r1 = mkop("c_reuse"); r1.o = user; r1.o2 = 4; pl.ops.push_back(r1);
+      for (int i = 0; i < 2; ++i) { Op o = mkop("c_exec"); o.o = user; o.i = {(int64_t)g.range(1, 4), (int64_t)g.below(4), (int64_t)g.below(4), (int64_t)g.below(2)}; pl.ops.push_back(o); }
+      return pl;
+    }
     int nclip = useD ? 1 : (int)g.range(1, 2), ncont = useD ? (int)g.range(0, 1) : (int)g.range(0, 2);
     for (int i = 0; i < nclip; ++i) { Op n = mkop(useD ? "new_cd" : "new_c64"); n.o = i; if (useD) n.i = {prec}; pl.ops.push_back(n); }
     for (int i = 0; i < ncont; ++i) { Op n = mkop("new_cont"); n.o = 4 + i; pl.ops.push_back(n); Op a = mkop("k_add"); a.o = 4 + i; a.i = {(int64_t)g.below(2), (int64_t)(g.chance(0.15) ? 1 : 0)}; setP(a, 0, P()); pl.ops.push_back(a); }
@@ -681,6 +709,37 @@ Plan gen_c12(uint64_t seed, uint64_t run, const std::string& cfg) {
       setP(o, 0, pp); pl.ops.push_back(o);
     }
   }
+  return pl;
+}
+
+// Fault histories (about one history in seven): one operation ends with an exception - an allocation fails, or the caller's
+// own callback throws - then the object is cleared and used again.
+Plan gen_c12(uint64_t seed, uint64_t run, const std::string& cfg) {
+  Plan pl = gen_c12_base(seed, run, cfg);
+  Rng g(mix64(mix64(mix64(seed, tag64("C12")), run), tag64("fault-history")));
+  if (!g.chance(0.15)) return pl;
+  static const char* kinds[] = {"c_add", "c_reuse", "c_exec", "k_add", "f_addpaths", "f_addpath", "f_exec", "f_execcb", "r_exec"};
+  std::vector<int> cand;
+  for (size_t i = 0; i < pl.ops.size(); ++i) for (const char* k : kinds) if (pl.ops[i].kind == k) cand.push_back((int)i);
+  if (cand.empty()) return pl;
+  int K = cand[g.below(cand.size())];
+  const Op faulting = pl.ops[(size_t)K];
+  Fault ft; ft.op = K; ft.alloc = (int64_t)g.below(64); ft.kind = g.chance(0.25) ? 2 : 0;
+  pl.faults.push_back(ft);
+  bool is_rect = faulting.kind == "r_exec";
+  std::vector<Op> tail;
+  if (!is_rect && g.chance(0.85)) { Op c = faulting; c = Op(); c.kind = "clear"; c.task = faulting.task; c.o = faulting.o; tail.push_back(c); }
+  if (!is_rect && g.chance(0.6)) {
+    // use the object again: replay an earlier add on it (or the faulting one) and execute
+    const Op* add = nullptr; const Op* ex = nullptr;
+    for (const Op& o : pl.ops) if (o.o == faulting.o && o.task == faulting.task) {
+      if (o.kind == "c_add" || o.kind == "f_addpaths" || o.kind == "f_addpath" || o.kind == "k_add") add = &o;
+      if (o.kind == "c_exec" || o.kind == "f_exec" || o.kind == "f_execcb") ex = &o;
+    }
+    if (add) tail.push_back(*add);
+    if (ex) tail.push_back(*ex);
+  }
+  pl.ops.insert(pl.ops.begin() + K + 1, tail.begin(), tail.end());
   return pl;
 }
 
